@@ -9,7 +9,7 @@ from vpkit.training import gen_state_equal, make_program, program_cfgs, referenc
 PROPERTY = "C07"
 LEVEL = "exploration"
 RULE = (
-    "cases = training programs: loss kind (ODE, stationary, non-stationary; analytic-field network or small real MLP with a "
+    "cases = training programs: loss kind (ODE, stationary, non-stationary, 2-unknown ODE system; analytic-field network or small real MLP with a "
     "parameter-dependent output transform; dynamic + initial / boundary / observation terms, equation parameters trained "
     "too), optimizer in {sgd, adam, adamw, chain(clip_by_global_norm, adam), sgd with exponential-decay / piecewise-constant "
     "schedules, sgd with momentum}, both loop implementations of solve (lax.while_loop, and the python loop selected by "
@@ -89,6 +89,9 @@ def run_case(case):
     if cfg.get("obs_gen"):
         labels.append("obs-gen")
     ref = reference_loop(prog, n)
+    if not np.all(np.isfinite(ref["loss"])):
+        # the program diverges: solve() stops on NaN parameters (that behaviour is C18's), not a C07 case
+        return ok(nontrivial=False, labels=labels + ["diverged-skipped"])
     kw = {}
     if cfg.get("sharding"):
         import jax
@@ -121,6 +124,8 @@ def run_resume(case):
     prog = make_program(cfg)
     labels = [cfg["kind"], cfg["opt"], "resume"]
     ref = reference_loop(prog, n1 + n2)
+    if not np.all(np.isfinite(ref["loss"])):
+        return ok(nontrivial=False, labels=labels + ["diverged-skipped"])
     o1 = jinns.solve(n_iter=n1, init_params=prog["params"], data=prog["data"], loss=prog["loss"], optimizer=prog["optimizer"],
                      verbose=False)
     o2 = jinns.solve(n_iter=n2, init_params=o1[0], data=o1[3], loss=prog["loss"], optimizer=prog["optimizer"], opt_state=o1[5],
